@@ -602,10 +602,61 @@ def run_check(tier, seed):
         n_ok = check_deriv_numeric(run, e, d, 'numerical differentiation', pts, 'C19:deriv:' + (heads[0] if heads else 'elementary'))
         run.count(('deriv-wide', str(e)), nontrivial=n_ok > 0)
 
+    # ======== (2b) derivatives of integrals whose bounds (and integrand) depend on the variable (Leibniz rule), and of
+    #               products / quotients / compositions containing them
+    def simple(v, d):
+        c = r.random()
+        V = Var(v)
+        if d <= 0 or c < 0.3:
+            return V if r.random() < 0.7 else Const(r.choice([1, 2, Fraction(1, 2)]))
+        k = r.choice(['+', '*', 'pow', 'sin', 'exp', 'cos'])
+        if k in '+*':
+            return Op(k, simple(v, d - 1), simple(v, d - 1))
+        if k == 'pow':
+            return Op('^', simple(v, d - 1), Const(r.choice([2, 3])))
+        return Fun(k, simple(v, d - 1))
+    x_ = Var('x')
+    for _ in range(25 * scale):
+        lo = r.choice([Const(0), Const(1), x_, Op('*', Const(2), x_), Op('^', x_, Const(2)), Op('-', x_), Fun('sin', x_), Op('+', x_, Const(1))])
+        hi = r.choice([Const(1), Const(2), x_, Op('*', Const(3), x_), Op('^', x_, Const(2)), Op('+', x_, Const(2)), Fun('exp', x_)])
+        if lo == hi:
+            continue
+        body = simple('t', r.choice([1, 2]))
+        if r.random() < 0.4:
+            body = Op(r.choice(['*', '+']), body, simple('x', 1))        # the parameter occurs in the integrand as well
+        e = E.Integral('t', lo, hi, body)
+        c = r.random()
+        if c < 0.25:
+            e = Op('*', simple('x', 1), e)
+        elif c < 0.4:
+            e = Fun(r.choice(['sin', 'exp']), e)
+        elif c < 0.5:
+            e = Op('/', e, Op('+', Op('^', x_, Const(2)), Const(1)))
+        try:
+            d = with_timeout(10, lambda: rules.deriv('x', e, ctx))
+        except Alarm:
+            run.stat('deriv_timeout')
+            continue
+        except RecursionError:
+            raise
+        except Exception as ex:
+            run.stat('deriv_int_exc:' + type(ex).__name__)
+            continue
+        try:
+            n_ok = with_timeout(60, lambda: check_deriv_numeric(run, e, d, 'numerical differentiation of the quadrature', pts[:3], 'C19:deriv:integral-bounds'))
+        except Alarm:
+            run.stat('deriv_int_numeric_timeout')
+            mp.dps = 30
+            continue
+        run.stat('deriv-integral:%s' % ('evaluated' if n_ok else 'not-evaluated'))
+        run.count(('deriv-integral', str(e)), nontrivial=n_ok > 0)
+
     # ======== (3) normalize: value and idempotence; print / parse
     conds = Conditions()
-    for _ in range(150 * scale):
-        e = g.wide(r.choice([1, 2, 3]))
+    # corpus first: the recorded finding (a base next to a symbolic power of the same base) and relatives
+    corpus3 = [iparser.parse_expr(t_) for t_ in ('x / 3 * x ^ x + 1', 'x * x ^ x', 'x ^ x * x', 'a * x ^ a * x')]
+    for k3 in range(len(corpus3) + 150 * scale):
+        e = corpus3[k3] if k3 < len(corpus3) else g.wide(r.choice([1, 2, 3]))
         try:
             # expressions as the parser produces them (Const(-2) rather than -Const(2)): print / parse must be the identity on those
             e1 = iparser.parse_expr(str(e))
